@@ -611,3 +611,22 @@ class HRG_eq:
     ensures = {"decides": lambda self, other, result: result == (
         self._rules == other._rules and self._start == other._start
         and self._node_labels == other._node_labels and self._edge_labels == other._edge_labels)}
+
+
+# ---- HRG.start setter with an EdgeLabel (C16): exception safe, registers the label ------------------------------------
+@contract("fggs.fggs.HRG.start.setter")
+class HRG_start_setter:
+    sig = {"self": "HRGFull", "start": "EdgeLabel"}
+    properties = ["C16"]
+    requires = lambda self, start: label_tables_keyed_by_name(self)
+    ensures = {
+        "set_and_registered": lambda self, start: (
+            self._start == start and self._edge_labels == put(old(self._edge_labels), start.name, start)
+            and self._node_labels == old(self._node_labels) and self._rules == old(self._rules)),
+        "keyed": lambda self, start: label_tables_keyed_by_name(self),
+    }
+    raises = {"ValueError": lambda self, start: (
+        start.is_terminal or (start.name in self._edge_labels and self._edge_labels[start.name] != start))}
+    on_raise = {"ValueError": lambda self, start: (
+        self._start == old(self._start) and self._edge_labels == old(self._edge_labels)
+        and self._node_labels == old(self._node_labels) and self._rules == old(self._rules))}
